@@ -108,7 +108,9 @@ def _discipline(run, qual):
             if lab != 'ROUTE':
                 cpl = 'u'
             return (cpl, failed, flag, resp_done, routed)
-        if lab == 'OK':
+        if lab in ('OK', 'FLAG?'):
+            # a computed (non-constant) value may be true: it is held to the
+            # same conditions as the literal True
             if failed or not (resp_done or cpl == 'p'):
                 return ERROR
             return (cpl, failed, 'T', resp_done, routed)
@@ -170,7 +172,7 @@ def _discipline(run, qual):
                   cfg.node(nid).ast, where='%s:%s' % (f.file, cfg.node(nid).lineno))
 
     # (e) OK reachable only over non-exceptional edges
-    for nid in af.nodes_labelled('OK'):
+    for nid in af.nodes_labelled('OK') + af.nodes_labelled('FLAG?'):
         back = flow.co_reachable(cfg, [nid])
         fwd = flow.reachable(cfg, [cfg.entry])
         bad_edges = [(x, y) for x in back & fwd & inner_all for (y, l) in cfg.succ[x] if l == 'exc' and y in back]
@@ -464,15 +466,36 @@ def r5_lifespan(run):
     run.use_cfg(cfg)
     loops = [n for n in walk_self(f.node) if isinstance(n, (ast.For, ast.AsyncFor))]
     found = {}
+    extra_calls = []
+
+    def own_calls(lp):
+        """process_* calls of this loop that are not inside a loop nested in it"""
+        inner = {id(x) for sub in walk_self(lp) if sub is not lp and isinstance(sub, (ast.For, ast.AsyncFor)) for x in walk_self(sub)}
+        return [c for c in walk_self(lp) if id(c) not in inner and isinstance(c, ast.Call) and isinstance(c.func, ast.Attribute)
+                and c.func.attr in ('process_startup', 'process_shutdown')]
+
     for lp in loops:
-        calls = [c for c in walk_self(lp) if isinstance(c, ast.Call) and isinstance(c.func, ast.Attribute)
-                 and c.func.attr in ('process_startup', 'process_shutdown')]
+        calls = own_calls(lp)
         if not calls:
             continue
         kind = calls[0].func.attr
+        nested_in_other = any(lp is not o and any(x is lp for x in walk_self(o)) for o in loops if own_calls(o))
+        if kind in found or nested_in_other or len(calls) > 1:
+            extra_calls += calls if (kind in found or nested_in_other) else calls[1:]
+            if kind in found or nested_in_other:
+                continue
         found[kind] = (lp, calls[0])
     if set(found) != {'process_startup', 'process_shutdown'}:
         raise AnchorError('lifespan handler loops not found: %s' % sorted(found))
+    # each phase has exactly one handler loop: a second place that invokes a
+    # lifespan handler (a "rollback" after a failed startup, a retry) runs
+    # handlers outside the sequence the property fixes
+    for c in extra_calls:
+        run.fail('lifespan handlers are invoked only by the one loop of their phase (startup: each once in registration order, stopping at the '
+                 'first failure; shutdown: only on the shutdown event)', f, c,
+                 runtime_witness='two middleware with process_startup/process_shutdown, the second startup raises: a shutdown handler runs '
+                                 'although no shutdown event was received / a handler runs twice')
+    run.ok('lifespan: one handler loop per phase (%d loops examined)' % len(loops), f.loc())
 
     def send_type(c):
         """folded 'type' of a send({...}) call"""
@@ -655,6 +678,95 @@ def r7_class_hooks(run):
                       '%s installs each wrapped responder on the class under its own name' % outer.name, g, sets[0] if sets else lp.iter)
 
 
+def r8_decorable_names(run):
+    """Class-level hooks wrap the members whose name the module's responder
+    pattern accepts.  The router installs a responder for every method of
+    falcon.constants.COMBINED_METHODS (HTTP + WebDAV + custom), so the pattern
+    must be built from a method table that covers all of them: built from a
+    smaller table, `@before(...)` on a class silently skips on_propfind,
+    on_lock, ... and the hook discipline fails for those verbs."""
+    p = run.project
+    hooks = p.module('falcon.hooks')
+    consts = p.module('falcon.constants')
+
+    def leaves(m, name, depth=0):
+        """method tables a module-level name is concatenated from:
+        {leaf qualified name: folded value or None (environment dependent)}"""
+        if depth > 6:
+            raise UnknownIdiom('method table %s: definition too deep' % name)
+        if name not in m.consts:
+            q = p.resolve_expr(m, ast.Name(name, ast.Load()))
+            if q and '.' in q:
+                mq, _, nm = q.rpartition('.')
+                try:
+                    m2 = p.module(mq)
+                except Exception:
+                    return None
+                if m2 is not m or nm != name:
+                    return leaves(m2, nm, depth + 1)
+            return None
+        e = m.consts[name]
+        parts = []
+
+        def split(x):
+            if isinstance(x, ast.BinOp) and isinstance(x.op, ast.Add):
+                split(x.left)
+                split(x.right)
+            else:
+                parts.append(x)
+
+        split(e)
+        if len(parts) > 1 or isinstance(parts[0], ast.Name):
+            out = {}
+            for x in parts:
+                sub = leaves(m, x.id, depth + 1) if isinstance(x, ast.Name) else None
+                if sub is None:
+                    v = p.fold(m, x)
+                    if isinstance(v, (list, tuple)) and all(isinstance(t, str) for t in v):
+                        sub = {'%s.<literal %s>' % (m.name, short(x)[:30]): set(v)}
+                    else:
+                        return None
+                out.update(sub)
+            return out
+        v = p.fold(m, e)
+        if isinstance(v, (list, tuple, frozenset)) and all(isinstance(t, str) for t in v):
+            return {'%s.%s' % (m.name, name): set(v)}
+        if isinstance(e, (ast.ListComp, ast.List, ast.Tuple)):
+            return {'%s.%s' % (m.name, name): None}
+        return None
+
+    want = leaves(consts, 'COMBINED_METHODS')
+    if not want or not any(v for v in want.values()):
+        raise AnchorError('falcon.constants.COMBINED_METHODS is not a concatenation of method tables')
+    # the pattern object(s) consulted by the class-decorator loops
+    used = set()
+    for outer_q in ('falcon.hooks.before', 'falcon.hooks.after'):
+        for g in p.func(outer_q).nested.values():
+            for c in walk_self(g.node):
+                if isinstance(c, ast.Call) and isinstance(c.func, ast.Attribute) and c.func.attr in ('match', 'fullmatch', 'search') \
+                        and isinstance(c.func.value, ast.Name) and c.func.value.id in hooks.consts:
+                    used.add(c.func.value.id)
+    if not used:
+        raise AnchorError('falcon.hooks: no module-level responder-name pattern is consulted by before()/after()')
+    for name in sorted(used):
+        expr = hooks.consts[name]
+        have = {}
+        for x in ast.walk(expr):
+            if isinstance(x, ast.Name) and isinstance(x.ctx, ast.Load):
+                lv = leaves(hooks, x.id)
+                if lv:
+                    have.update(lv)
+        if not have:
+            raise UnknownIdiom('falcon.hooks.%s is not built from a method table: %s' % (name, short(expr)))
+        have_vals = set().union(*[v for v in have.values() if v])
+        missing_tables = sorted(k for k, v in want.items() if k not in have and not (v and v <= have_vals))
+        missing = sorted(set().union(*[want[k] or {k.rsplit('.', 1)[1]} for k in missing_tables])) if missing_tables else []
+        run.check(not missing_tables, 'the responder-name pattern used by class-level hooks is built from method tables covering COMBINED_METHODS', 'falcon.hooks',
+                  'falcon.hooks.%s' % name, where='falcon/hooks.py:%s' % getattr(expr, 'lineno', '?'),
+                  witness=['built from %s' % ', '.join(sorted(k.rsplit('.', 1)[1] for k in have)), 'not covered: %s' % ', '.join(missing[:8])],
+                  runtime_witness='@falcon.before(hook) on a class with on_%s: the hook never runs for that verb' % (missing[0].lower() if missing else 'x'))
+
+
 def check(run):
     run.assume('user middleware does not mutate the prepared stacks at run time')
     run.assume('events of a call node are considered to have happened before its exceptional edge is taken')
@@ -664,4 +776,5 @@ def check(run):
     run.rule('R4', r4_hooks, 'before/after hook wrappers', floor=6)
     run.rule('R5', r5_lifespan, 'lifespan handler sequencing', floor=10)
     run.rule('R7', r7_class_hooks, 'class-level hooks cover inherited responders', floor=4)
+    run.rule('R8', r8_decorable_names, 'the responder-name pattern of class-level hooks covers every routable method', floor=1)
     run.rule('R6', r6_wiring, 'registration order and mode wiring of the prepared stacks', floor=9)
